@@ -685,12 +685,17 @@ KERNEL_GROUPS['KernelsMetaRow'] = [
     ('meta_row.py', 'MetaRow.pam_ref_end', 'k_mr_pam_ref_end', 'mrow'),
     ('meta_row.py', 'MetaRow.pam_ref_range', 'k_mr_pam_ref_range', 'mrow'),
 ]
+KERNEL_GROUPS['KernelsDnaStr'] = [
+    # DnaStr.replace_substr / insert_substr: how a variant is spliced into a template (slices, f-strings of DNA text)
+    ('strings/dna_str.py', 'DnaStr.replace_substr', 'k_dna_replace_substr', 'dna'),
+    ('strings/dna_str.py', 'DnaStr.insert_substr', 'k_dna_insert_substr', 'dna'),
+]
 KERNEL_EXTRA_SOURCES = {'KernelsMave': ['enums.py'], 'KernelsNames': ['enums.py', 'constants.py'], 'KernelsLift': ['enums.py'], 'KernelsGpo': ['enums.py']}
 KERNEL_CONSTS = {'KernelsNames': ('REVCOMP_OLIGO_NAME_SUFFIX',)}
 KERNEL_IMPORTS = {'KernelsTargeton': ' Model.Targeton', 'KernelsMave': ' Model.Seq Model.Vcf Model.Mave Model.PyStr',
                   'KernelsNames': ' Model.Seq Model.Vcf Model.Mave Model.PyStr', 'KernelsLift': ' Model.Seq Model.Vcf Model.Gpo',
                   'KernelsGpo': ' Model.Seq Model.Vcf Model.Gpo Model.PyStr Model.PyLoop', 'KernelsExons': ' Model.PyLoop', 'KernelsCounts': ' Model.Unique Model.PyLoop',
-                  'KernelsMetaRow': ' Model.Seq Model.Vcf Model.Mave Model.Gpo Model.ToCsv'}
+                  'KernelsMetaRow': ' Model.Seq Model.Vcf Model.Mave Model.Gpo Model.ToCsv', 'KernelsDnaStr': ' Model.Seq Model.PyLoop'}
 
 
 def _kernel_extractor(name):
